@@ -413,11 +413,13 @@ def check_C18(chk):
                         items.append(f"PARTIAL:{[16, 1, 31, 8][si % 4]}")
                     else:
                         items.append(o)
-                lines.append(f"seq id={variant}-{cc}{opt}-{si} prefill={[0, 255, 165, 85][si % 4]} errno={[0, 11, 4, 0, 5][si % 5]} items={','.join(items)}")
+                # every third sequence runs with the process out of file descriptors (any other open() fails with EMFILE):
+                # transient errors must still be retried, whatever else the source tries to open meanwhile
+                lines.append(f"seq id={variant}-{cc}{opt}-{si} prefill={[0, 255, 165, 85][si % 4]} errno={[0, 11, 4, 0, 5][si % 5]} denyopen={1 if si % 3 == 1 else 0} items={','.join(items)}")
             # long but finite transient runs, then success or a permanent error
             for n in ([17, 40, 1000] + ([20000] if chk.thorough else [])):
                 for it in ('EINTR', 'EAGAIN'):
-                    lines.append(f"seq id={variant}-{cc}{opt}-long{n}{it} prefill=165 rep={n}:{it} items=OK")
+                    lines.append(f"seq id={variant}-{cc}{opt}-long{n}{it} prefill=165 denyopen={1 if n == 17 else 0} rep={n}:{it} items=OK")
                 lines.append(f"seq id={variant}-{cc}{opt}-long{n}perm prefill=255 rep={n}:EINTR items=EAGAIN,PERM:5")
             p = subprocess.run([exe], input='\n'.join(lines) + '\n', stdout=subprocess.PIPE, stderr=subprocess.PIPE, text=True, timeout=600)
             evs = [json.loads(x) for x in p.stdout.splitlines() if x.startswith('{')]
